@@ -853,6 +853,15 @@ func (vc *VC) intBinop(fx *fexec, st *State, op token.Token, a, b Val, rt types.
 
 func constOf(t Term) (*big.Int, bool) {
 	s := t.S
+	if strings.HasPrefix(s, "(_ bv") {
+		// bit-vector literal (_ bvN w)
+		f := strings.Fields(s[len("(_ bv"):])
+		if len(f) == 2 {
+			v, ok := new(big.Int).SetString(f[0], 10)
+			return v, ok
+		}
+		return nil, false
+	}
 	neg := false
 	if strings.HasPrefix(s, "(- ") && strings.HasSuffix(s, ")") {
 		neg = true
